@@ -271,6 +271,9 @@ pub struct FaultCase {
     pub natural: Natural,
     /// extra delay (ms) the answering chronyd takes
     pub reply_delay_ms: u32,
+    /// the failing worker lingers at the fault point for this long before it dies
+    #[serde(default)]
+    pub fault_delay_ms: u32,
 }
 
 pub const POLLER_POINTS: [&str; 7] = ["poller:startup", "poller:loop_top", "poller:after_clock_read", "poller:before_send", "poller:after_send", "poller:before_recv", "poller:after_recv"];
@@ -348,7 +351,7 @@ pub fn c15_child(spec_json: &str) -> i32 {
         }
     }
     if let Some((name, nth, panic)) = &case.fault {
-        dv::arm_fault(name, *nth, if *panic { dv::FaultKind::Panic } else { dv::FaultKind::Return });
+        dv::arm_fault_delayed(name, *nth, if *panic { dv::FaultKind::Panic } else { dv::FaultKind::Return }, Duration::from_millis(case.fault_delay_ms as u64));
     }
     let t_start = real_now();
     // watchdog: report "fault never reached" instead of running for ever when nothing fails
@@ -371,7 +374,17 @@ pub fn c15_child(spec_json: &str) -> i32 {
     let t_end = real_now();
     let fired_s = dv::fault_fired_at().map(|i| i.elapsed().as_secs_f64());
     // remaining threads of this process besides main and the watchdog/aux threads of the harness
-    let tasks = std::fs::read_dir("/proc/self/task").map(|d| d.count()).unwrap_or(0);
+    // (a joined thread may take a moment to disappear from /proc: sample for up to half a second and
+    // keep the smallest count)
+    let mut tasks = usize::MAX;
+    for _ in 0..50 {
+        let n = std::fs::read_dir("/proc/self/task").map(|d| d.count()).unwrap_or(0);
+        tasks = tasks.min(n);
+        if n <= 2 {
+            break;
+        }
+        std::thread::sleep(Duration::from_millis(10));
+    }
     let nat_ms = NATURAL_AT.load(std::sync::atomic::Ordering::SeqCst);
     println!(
         "{{\"returned\":true,\"run_s\":{:.3},\"since_fault_s\":{},\"tasks\":{},\"since_natural_s\":{}}}",
@@ -512,8 +525,9 @@ fn c15_strategy() -> BoxedStrategy<FaultCase> {
         any::<bool>(),
         prop_oneof![Just(ChronyMode::Absent), Just(ChronyMode::Silent), Just(ChronyMode::Answering)],
         prop_oneof![3 => Just(0u32), 1 => 0u32..900],
+        prop_oneof![3 => Just(0u32), 1 => 0u32..3000],
     )
-        .prop_map(|((name, can_return), nth, panic, chrony, reply_delay_ms)| {
+        .prop_map(|((name, can_return), nth, panic, chrony, reply_delay_ms, fault_delay_ms)| {
             // keep the fault point reachable: in_clock_update needs reports, in_missing_update outages
             let chrony = match name.as_str() {
                 "writer:in_clock_update" => ChronyMode::Answering,
@@ -521,13 +535,14 @@ fn c15_strategy() -> BoxedStrategy<FaultCase> {
                 _ => chrony,
             };
             let nth = if name.ends_with(":startup") || name == "writer:after_new" { 0 } else { nth };
-            (name, can_return, nth, panic, chrony, reply_delay_ms)
+            (name, can_return, nth, panic, chrony, reply_delay_ms, fault_delay_ms)
         })
-        .prop_map(|(name, can_return, nth, panic, chrony, reply_delay_ms)| FaultCase {
+        .prop_map(|(name, can_return, nth, panic, chrony, reply_delay_ms, fault_delay_ms)| FaultCase {
             fault: Some((name, nth, panic || !can_return)),
             chrony,
             natural: Natural::None,
             reply_delay_ms,
+            fault_delay_ms,
         })
         .boxed()
 }
@@ -537,7 +552,7 @@ impl Property for C15 {
     const ID: &'static str = "C15";
     const LEVEL: &'static str = "fault_enumeration";
     fn rule() -> String {
-        "enumerated: worker in {poller, writer} x named fault point (poller: startup, loop top, after the clock read, before/after send, before/after recv; writer: startup, after ShmWriter::new, loop top, after a message, inside process_clock_update / process_missing_clock_update, before/after the segment write) x n-th time the point is reached (0,1 quick; 0,1,2 thorough) x kind (panic; early return where that ends the thread) x chronyd (absent; silent = 3 s of timeouts per query; answering), plus hook-free natural faults (/run/clockbound is a regular file; PHC error-bound file unparsable from the start / turning unparsable after 1.5 s). Generated in addition: random combinations with random reply delays. Each case: thread_manager::run() in a child process inside a private mount namespace. Oracle: run() returns within 12 s of the failure (legitimate worst case ~4 s: 1 s poll sleep + 3 x 1 s chrony timeouts) and no worker thread is left alive; a child still running 13 s after the failure (or 47 s after start when the failure never happens) is killed and reported as lingering. Non-trivial: iteration >= 1, an answering chronyd, or a natural fault.".into()
+        "enumerated: worker in {poller, writer} x named fault point (poller: startup, loop top, after the clock read, before/after send, before/after recv; writer: startup, after ShmWriter::new, loop top, after a message, inside process_clock_update / process_missing_clock_update, before/after the segment write) x n-th time the point is reached (0,1 quick; 0,1,2 thorough) x kind (panic; early return where that ends the thread) x chronyd (absent; silent = 3 s of timeouts per query; answering), plus a writer that lingers 0.5-2.5 s at the fault point before dying during a chronyd outage (the poller is then in the middle of its iteration, not waiting on its mailbox), plus hook-free natural faults (/run/clockbound is a regular file; PHC error-bound file unparsable from the start / turning unparsable after 1.5 s). Generated in addition: random combinations with random reply delays. Each case: thread_manager::run() in a child process inside a private mount namespace. Oracle: run() returns within 12 s of the failure (legitimate worst case ~4 s: 1 s poll sleep + 3 x 1 s chrony timeouts) and no worker thread is left alive; a child still running 13 s after the failure (or 47 s after start when the failure never happens) is killed and reported as lingering. Non-trivial: iteration >= 1, an answering chronyd, or a natural fault.".into()
     }
     fn assumptions() -> Vec<String> {
         vec!["promptness is decided with a 12 s deadline (3x the legitimate worst case); interleavings of the death notifications are those the OS scheduler produces plus the injected reply delays".into()]
@@ -565,13 +580,14 @@ impl Property for C15 {
         // long outages: the writer dies after several "not responding" messages (any back-off or
         // other state the poller builds up during an outage must not delay the exit)
         for p in ["writer:after_message", "writer:before_write"] {
-            for nth in if tier == Tier::Quick { vec![3u32] } else { vec![3u32, 4, 5] } {
-                for chrony in [ChronyMode::Absent] {
+            for nth in if tier == Tier::Quick { vec![2u32, 3] } else { vec![1u32, 2, 3, 4, 5] } {
+                for delay in if tier == Tier::Quick { vec![0u32, 1500] } else { vec![0u32, 500, 1500, 2500] } {
                     cases.push(FaultCase {
                         fault: Some((p.to_string(), nth, true)),
-                        chrony: chrony.clone(),
+                        chrony: ChronyMode::Absent,
                         natural: Natural::None,
                         reply_delay_ms: 0,
+                        fault_delay_ms: delay,
                     });
                 }
             }
@@ -594,6 +610,7 @@ impl Property for C15 {
                             chrony: chrony.clone(),
                             natural: Natural::None,
                             reply_delay_ms: 0,
+                            fault_delay_ms: 0,
                         });
                     }
                 }
@@ -613,6 +630,7 @@ impl Property for C15 {
                         chrony: chrony.clone(),
                         natural: Natural::None,
                         reply_delay_ms: 0,
+                        fault_delay_ms: 0,
                     });
                 }
             }
@@ -623,6 +641,7 @@ impl Property for C15 {
                 chrony: if nat == Natural::RunDirIsFile { ChronyMode::Absent } else { ChronyMode::Answering },
                 natural: nat,
                 reply_delay_ms: 0,
+                fault_delay_ms: 0,
             });
         }
         let results: Vec<(FaultCase, Verdict)> = std::thread::scope(|s| {
@@ -632,7 +651,7 @@ impl Property for C15 {
                 .map(|chunk| {
                     s.spawn(move || {
                         let mut e = Env::new(std::path::Path::new("/dev/shm/clockbound-verif-c15"), Tier::Quick, 0);
-                        chunk.into_iter().map(|c| { let v = check_c15_case(&c, &mut e); (c, v) }).collect::<Vec<_>>()
+                        chunk.into_iter().map(|c| { tick(); let v = check_c15_case(&c, &mut e); tick(); (c, v) }).collect::<Vec<_>>()
                     })
                 })
                 .collect();
